@@ -289,33 +289,61 @@ pub async fn race(base: &Path, sc: &Value) -> Value {
     json!({"a": format!("{ra:?}"), "b": format!("{rb:?}"), "a_polls_first": polls, "after": obs})
 }
 
-/// k free-running writers on the multi-thread runtime, `rounds` times
+/// k writers of one key released together (barrier) on the multi-thread runtime, `rounds` times on one store: every writer
+/// succeeds, the object is one writer's complete content, no temporary file stays
 pub async fn storm(base: &Path, sc: &Value) -> Value {
     let k = sc["writers"].as_u64().unwrap_or(4) as usize;
     let rounds = sc["rounds"].as_u64().unwrap_or(10) as usize;
     let mut bad = vec![];
+    let fs = std::sync::Arc::new(fresh(base, sc).await);
+    let root = base.join("root");
     for round in 0..rounds {
-        let fs = std::sync::Arc::new(fresh(base, sc).await);
-        let root = base.join("root");
+        let barrier = std::sync::Arc::new(tokio::sync::Barrier::new(k));
         let mut contents = vec![];
         let mut hs = vec![];
         for w in 0..k {
             // distinct contents of distinct lengths, several frames each
-            let frames: Vec<String> = (0..3).map(|f| format!("w{w}f{f}-").repeat(50 + 17 * w)).collect();
+            let frames: Vec<String> = (0..3).map(|f| format!("r{round}w{w}f{f}-").repeat(20 + 7 * w)).collect();
             contents.push(frames.concat());
             let fs2 = fs.clone();
+            let b2 = barrier.clone();
             hs.push(tokio::spawn(async move {
                 let i = put_input(&json!({}), "b1", "obj", &frames, None, None);
+                b2.wait().await;
                 err_code(fs2.put_object(req(i)).await)
             }));
         }
+        let mut failed = 0;
         for h in hs {
-            let _ = h.await;
+            if !matches!(h.await, Ok(Ok(()))) {
+                failed += 1;
+            }
         }
-        let obs = observe(&fs, &root, "b1", "obj").await;
-        let got = obs["content"].as_str().unwrap_or("").to_owned();
-        if !contents.contains(&got) || !obs["tmp_files"].as_array().map(|a| a.is_empty()).unwrap_or(false) {
-            bad.push(json!({"round": round, "content_len": got.len(), "tmp_files": obs["tmp_files"]}));
+        let mut b = GetObjectInput::builder();
+        b.set_bucket("b1".to_owned());
+        b.set_key("obj".to_owned());
+        let got = match fs.get_object(req(b.build().unwrap())).await {
+            Ok(r) => {
+                let mut out = Vec::new();
+                if let Some(mut s) = r.output.body {
+                    while let Some(Ok(chunk)) = s.next().await {
+                        out.extend_from_slice(&chunk);
+                    }
+                }
+                String::from_utf8_lossy(&out).into_owned()
+            }
+            Err(_) => String::new(),
+        };
+        let tmp: Vec<String> = std::fs::read_dir(&root)
+            .map(|rd| rd.flatten().map(|e| e.file_name().to_string_lossy().into_owned()).filter(|n| n.starts_with(".tmp.")).collect())
+            .unwrap_or_default();
+        if failed > 0 || !contents.contains(&got) || !tmp.is_empty() {
+            if bad.len() < 5 {
+                bad.push(json!({"round": round, "writers_failed": failed, "content_is_one_writers": contents.contains(&got), "content_len": got.len(), "tmp_files": tmp}));
+            }
+            for t in tmp {
+                let _ = std::fs::remove_file(root.join(t));
+            }
         }
     }
     json!({"rounds": rounds, "writers": k, "bad": bad})
@@ -324,7 +352,7 @@ pub async fn storm(base: &Path, sc: &Value) -> Value {
 pub fn batch(workdir: &str, file: &str) -> Value {
     let list: Value = serde_json::from_str(&std::fs::read_to_string(file).expect("read")).expect("json");
     let base = PathBuf::from(workdir);
-    let rt = tokio::runtime::Builder::new_multi_thread().worker_threads(4).enable_all().build().unwrap();
+    let rt = tokio::runtime::Builder::new_multi_thread().worker_threads(8).enable_all().build().unwrap();
     let mut outs = vec![];
     for sc in list.as_array().unwrap() {
         let o = match sc["kind"].as_str().unwrap_or("scenario") {
